@@ -29,7 +29,7 @@ class Config:
     fam: int = 0
     tree: int = 0              # run through parse_tree::parse with the grammar's selector (C12)
     mi: int = 0                # control = must_if< errs, ctl >::control (C05)
-    cov: int = 0               # run through coverage< Root, Action, Control >() (state_control<> around the logging control; C08)
+    cov: int = 0               # 1: run through coverage< Root, Action, Control >(), 2 / 3: through tracer<>::parse (state_control<> around the logging control; C08)
 
     def cpp(self, g: Grammar) -> str:
         ctl = f"{g.ns}::ctl" if self.unwind else f"{g.ns}::ctl_nu"
@@ -37,7 +37,7 @@ class Config:
             ctl = f"{g.ns}::ctl_mi"
         if self.cov:
             return (f"vh::run_case_cov< {g.ns}::tag, {g.nodes[self.root].cpp}, {g.ns}::act{self.fam}, {ctl}, "
-                    f"tao::pegtl::tracking_mode::{'lazy' if self.lazy else 'eager'}, {EOLS[self.eol]} >")
+                    f"tao::pegtl::tracking_mode::{'lazy' if self.lazy else 'eager'}, {EOLS[self.eol]}, {self.cov} >")
         if self.tree:
             return (f"vh::run_case_tree< {g.ns}::tag, {g.nodes[self.root].cpp}, {g.ns}::sel, {g.ns}::act{self.fam}, {ctl}, "
                     f"tao::pegtl::tracking_mode::{'lazy' if self.lazy else 'eager'}, {EOLS[self.eol]} >")
